@@ -679,9 +679,34 @@ def restore_while_tests(fnode, base_whiles, stats):
   for n in own_nodes(fnode):
     if isinstance(n, ast.While) and isinstance(n.test, ast.Constant) and n.test.value is True and not n.orelse and len(n.body) >= 2:
       f = n.body[0]
+      if (isinstance(f, ast.If) and not f.orelse and len(f.body) >= 2 and isinstance(f.body[-1], ast.Return) and f.body[-1].value is None
+          and not any(isinstance(x, ast.Break) for x in ast.walk(n)) and not any(isinstance(x, (ast.Return, ast.Continue, ast.Break)) for s_ in f.body[:-1] for x in ast.walk(s_))):
+        # the only way out of the loop, written inside it:  while True: if T: S; return   ==   while not T: ... ; S; return
+        t0 = f.test
+        neg0 = t0.operand if isinstance(t0, ast.UnaryOp) and isinstance(t0.op, ast.Not) else ast.UnaryOp(op=ast.Not(), operand=t0)
+        if ast.unparse(neg0) in base_whiles:
+          for blk in _blocks(fnode):
+            if any(x is n for x in blk):
+              k_ = [j for j, x in enumerate(blk) if x is n][0]
+              tail = f.body[:-1] + ([] if (blk is fnode.body and k_ == len(blk) - 1) else [f.body[-1]])
+              n.test = ast.copy_location(neg0, t0)
+              n.body = n.body[1:]
+              blk[k_ + 1:k_ + 1] = tail
+              ast.fix_missing_locations(fnode)
+              stats['whiles'] = stats.get('whiles', 0) + 1
+              break
+          continue
       if isinstance(f, ast.If) and not f.orelse and len(f.body) == 1 and isinstance(f.body[0], ast.Break):
         t = f.test
         neg = t.operand if isinstance(t, ast.UnaryOp) and isinstance(t.op, ast.Not) else ast.UnaryOp(op=ast.Not(), operand=t)
+        if ast.unparse(neg) not in base_whiles and isinstance(t, ast.Compare) and len(t.ops) == 1:
+          # the complementary comparison:  `x is None` / `x is not None`, `a == b` / `a != b`, `a in b` / `a not in b`   (not `<` / `>=`: NaN, partial orders)
+          comp = {ast.Is: ast.IsNot, ast.IsNot: ast.Is, ast.Eq: ast.NotEq, ast.NotEq: ast.Eq, ast.In: ast.NotIn, ast.NotIn: ast.In}.get(type(t.ops[0]))
+          if comp is not None and (type(t.ops[0]) in (ast.Is, ast.IsNot, ast.In, ast.NotIn) or (isinstance(t.comparators[0], ast.Constant) or isinstance(t.left, ast.Constant)
+                                                                                               or ast.unparse(t.comparators[0]).split('.')[0][:1].isupper())):
+            neg2 = ast.Compare(left=t.left, ops=[comp()], comparators=t.comparators)
+            if ast.unparse(neg2) in base_whiles:
+              neg = neg2
         if ast.unparse(neg) in base_whiles:
           n.test = ast.copy_location(neg, t)
           n.body = n.body[1:]
@@ -990,6 +1015,26 @@ def split_withs(tree, stats):
 
 def _is_assign_to(st, name):
   return isinstance(st, ast.Assign) and len(st.targets) == 1 and isinstance(st.targets[0], ast.Name) and st.targets[0].id == name
+
+
+def rotate_compute_store(fnode, base_names, stats):
+  """`x = E; A = x` (adjacent, x a new local, A a plain name / attribute chain): `A = E; x = A` -- the value is stored first and the local
+  becomes an alias of the stored place (`seq = self._seq + 1; self._seq = seq` is `self._seq += 1` with `seq` naming the new value)."""
+  for b in _blocks(fnode):
+    for k in range(len(b) - 1):
+      s1, s2 = b[k], b[k + 1]
+      if (isinstance(s1, ast.Assign) and len(s1.targets) == 1 and isinstance(s1.targets[0], ast.Name) and s1.targets[0].id not in base_names
+          and isinstance(s2, ast.Assign) and len(s2.targets) == 1 and isinstance(s2.value, ast.Name) and s2.value.id == s1.targets[0].id
+          and isinstance(s2.targets[0], ast.Attribute) and _is_pure_chain(s2.targets[0])):
+        x, a = s1.targets[0], s2.targets[0]
+        load = copy.deepcopy(a)
+        for n in ast.walk(load):
+          if hasattr(n, 'ctx'):
+            n.ctx = ast.Load()
+        b[k] = ast.copy_location(ast.Assign(targets=[a], value=s1.value), s1)
+        b[k + 1] = ast.copy_location(ast.Assign(targets=[x], value=load), s2)
+        stats['chained'] = stats.get('chained', 0) + 1
+  ast.fix_missing_locations(fnode)
 
 
 def split_chained_assigns(fnode, base_names, stats):
@@ -1503,8 +1548,36 @@ def restore_tuple_unpacking(fnode, bsrc, base_names, stats):
       base_assign.setdefault(ast.unparse(n.value), [e.id for e in n.targets[0].elts])
     elif isinstance(n, ast.For) and isinstance(n.target, ast.Tuple) and all(isinstance(e, ast.Name) for e in n.target.elts):
       base_for.setdefault(ast.unparse(n.iter), [e.id for e in n.target.elts])
+  for n in ast.walk(bsrc):
+    if isinstance(n, (ast.ListComp, ast.GeneratorExp, ast.SetComp)):
+      for g in n.generators:
+        if isinstance(g.target, ast.Tuple) and all(isinstance(e, ast.Name) for e in g.target.elts):
+          base_for.setdefault(ast.unparse(g.iter), [e.id for e in g.target.elts])
   if not base_assign and not base_for:
     return
+  for comp in [n for n in ast.walk(fnode) if isinstance(n, (ast.ListComp, ast.GeneratorExp, ast.SetComp))]:
+    if len(comp.generators) != 1:
+      continue
+    g = comp.generators[0]
+    if not (isinstance(g.target, ast.Name) and ast.unparse(g.iter) in base_for):
+      continue
+    t, names = g.target.id, base_for[ast.unparse(g.iter)]
+    scope = [comp.elt] + list(g.ifs)
+    loads = [x for s_ in scope for x in ast.walk(s_) if isinstance(x, ast.Name) and x.id == t]
+    subs = [x for s_ in scope for x in ast.walk(s_) if isinstance(x, ast.Subscript) and isinstance(x.value, ast.Name) and x.value.id == t
+            and isinstance(x.slice, ast.Constant) and isinstance(x.slice.value, int) and 0 <= x.slice.value < len(names)]
+    stars = [(c, a) for s_ in scope for c in ast.walk(s_) if isinstance(c, ast.Call) for a in c.args if isinstance(a, ast.Starred) and isinstance(a.value, ast.Name) and a.value.id == t]
+    if len(loads) != len(subs) + len(stars) or not loads or (stars and '_' in names) or any(names[x.slice.value] == '_' for x in subs):
+      continue
+    if any(isinstance(x, ast.Name) and x.id in names and x.id != '_' for s_ in scope for x in ast.walk(s_)):
+      continue
+    for x in subs:
+      _replace_node(comp, x, ast.copy_location(ast.Name(id=names[x.slice.value], ctx=ast.Load()), x))
+    for c, a in stars:
+      k_ = [j for j, y in enumerate(c.args) if y is a][0]
+      c.args[k_:k_ + 1] = [ast.copy_location(ast.Name(id=nm, ctx=ast.Load()), a) for nm in names]
+    g.target = ast.Tuple(elts=[ast.Name(id=nm, ctx=ast.Store()) for nm in names], ctx=ast.Store())
+    stats['unpacking_restored'] = stats.get('unpacking_restored', 0) + 1
   stores = {}
   for n in own_nodes(fnode):
     if isinstance(n, ast.Name) and isinstance(n.ctx, (ast.Store, ast.Del)):
@@ -1632,6 +1705,40 @@ def _fold_identities(e):
           return n.left
       return n
   return T().visit(e)
+
+
+def restore_pop_default(fnode, bsrc, stats):
+  """`if K in D: x = D.pop(K) else: x = C`  is  `x = D.pop(K, C)` (and `D[K]` / `D.get(K, C)`), for pure K, D and a constant C, when the reference
+  function uses the two-argument form."""
+  btxt = ast.unparse(bsrc)
+  for b in _blocks(fnode):
+    for k, st in enumerate(b):
+      if not (isinstance(st, ast.If) and len(st.body) == 1 and len(st.orelse) == 1 and isinstance(st.test, ast.Compare) and len(st.test.ops) == 1):
+        continue
+      t = st.test
+      pos, neg = st.body[0], st.orelse[0]
+      if isinstance(t.ops[0], ast.NotIn):
+        pos, neg = neg, pos
+      elif not isinstance(t.ops[0], ast.In):
+        continue
+      K, D = t.left, t.comparators[0]
+      if not (_is_pure(K) and _is_pure(D)):
+        continue
+      if not (isinstance(pos, ast.Assign) and isinstance(neg, ast.Assign) and len(pos.targets) == 1 and len(neg.targets) == 1
+              and ast.unparse(pos.targets[0]) == ast.unparse(neg.targets[0]) and isinstance(neg.value, ast.Constant)):
+        continue
+      v = pos.value
+      new = None
+      if (isinstance(v, ast.Call) and isinstance(v.func, ast.Attribute) and v.func.attr == 'pop' and ast.unparse(v.func.value) == ast.unparse(D)
+          and len(v.args) == 1 and not v.keywords and ast.unparse(v.args[0]) == ast.unparse(K)):
+        new = ast.Call(func=v.func, args=[v.args[0], neg.value], keywords=[])
+      elif isinstance(v, ast.Subscript) and ast.unparse(v.value) == ast.unparse(D) and ast.unparse(v.slice) == ast.unparse(K):
+        new = ast.Call(func=ast.Attribute(value=v.value, attr='get', ctx=ast.Load()), args=[v.slice, neg.value], keywords=[])
+      if new is None or ast.unparse(new) not in btxt:
+        continue
+      b[k] = ast.copy_location(ast.Assign(targets=pos.targets, value=ast.copy_location(new, v)), st)
+      stats['pop_defaults'] = stats.get('pop_defaults', 0) + 1
+  ast.fix_missing_locations(fnode)
 
 
 def raise_append_loops(fnode, bsrc, stats):
@@ -2033,6 +2140,7 @@ def rename_function(fnode, rel, qualname, base_funcs, stats):
     try:
       drop_self_assignments(fnode, stats)
       split_chained_assigns(fnode, base_names, stats)
+      rotate_compute_store(fnode, base_names, stats)
       merge_list_extend(fnode, base_names, stats)
       merge_name_aliases(fnode, base_names, stats)
       restore_while_tests(fnode, set(base.get('whiles', [])), stats)
@@ -2042,6 +2150,7 @@ def rename_function(fnode, rel, qualname, base_funcs, stats):
       if bsrc is not None:
         keywords_to_positional(fnode, bsrc, stats)
         raise_append_loops(fnode, bsrc, stats)
+        restore_pop_default(fnode, bsrc, stats)
         unroll_constant_comprehensions(fnode, bsrc, stats)
         restore_tuple_unpacking(fnode, bsrc, base_names, stats)
         drop_self_assignments(fnode, stats)
